@@ -1311,6 +1311,9 @@ func (pr *prover) f6Parse() {
 	fd := p.Decl(parseName)
 	fobj, _ := p.Types.Scope().Lookup(parseName).(*types.Func)
 	if fd == nil || fd.Body == nil || fobj == nil {
+		if pr.f6ParseInline() {
+			return
+		}
 		r.Unknown("F6", parseName+"/declaration", "", "function "+parseName+" not found — anchor lost")
 		return
 	}
@@ -1417,6 +1420,115 @@ func (pr *prover) f6Parse() {
 	r.Check(retOK && nRet > 0 && last != nil && idx == len(fd.Body.List)-2, "F6", k("returns-assembled-value"), pr.pos(fd),
 		"the assignment is the last statement before the final return, and every return yields the named result",
 		"the assembled value is not what the function returns (assignment not directly followed by the final return of the named result)")
+}
+
+// f6ParseInline: parseCRC32 no longer exists as a function — the section parser reads the field itself:
+// `bs, err = i.NextBytesNoCopy(4); …; s.CRC32 = <expression over bs>`. The same facts are checked on that assignment: bs is written
+// once, by a fetch of exactly 4 bytes, and the expression places stream byte k at bits 31-8k..24-8k. Reports false when no such
+// assignment exists.
+func (pr *prover) f6ParseInline() bool {
+	r, p := pr.r, pr.p
+	const host = "parsePSISection"
+	fd := p.Decl(host)
+	if fd == nil || fd.Body == nil {
+		return false
+	}
+	k := func(s string) string { return host + "(CRC32 field)/" + s }
+	var target *ast.AssignStmt
+	ast.Inspect(fd.Body, func(n ast.Node) bool {
+		as, ok := n.(*ast.AssignStmt)
+		if !ok || as.Tok != token.ASSIGN || len(as.Lhs) != 1 || len(as.Rhs) != 1 {
+			return true
+		}
+		sel, ok := unparen(as.Lhs[0]).(*ast.SelectorExpr)
+		if !ok || sel.Sel.Name != "CRC32" {
+			return true
+		}
+		if f, isF := p.Info.Uses[sel.Sel].(*types.Var); !isF || !f.IsField() || !isBasic(f.Type(), types.Uint32) {
+			return true
+		}
+		if _, isCall := unparen(as.Rhs[0]).(*ast.CallExpr); isCall {
+			if tv, okT := p.Info.Types[unparen(as.Rhs[0]).(*ast.CallExpr).Fun]; !(okT && tv.IsType()) {
+				return true // still a call of some helper: not the inline form
+			}
+		}
+		target = as
+		return true
+	})
+	if target == nil {
+		return false
+	}
+	// the byte slice the expression indexes
+	var bs types.Object
+	multi := false
+	ast.Inspect(target.Rhs[0], func(n ast.Node) bool {
+		if ix, ok := n.(*ast.IndexExpr); ok {
+			if o := pr.useOf(ix.X); o != nil && isByteSlice(o.Type()) {
+				if bs != nil && bs != o {
+					multi = true
+				}
+				bs = o
+			}
+		}
+		if c, ok := n.(*ast.CallExpr); ok && len(c.Args) == 1 {
+			if o := pr.useOf(c.Args[0]); o != nil && isByteSlice(o.Type()) {
+				if bs != nil && bs != o {
+					multi = true
+				}
+				bs = o
+			}
+		}
+		return true
+	})
+	okFetch := bs != nil && !multi
+	if okFetch {
+		as, others := pr.writesOf(fd.Body, bs)
+		okFetch = len(as) == 1 && len(others) == 0 && len(as[0].Lhs) == 2 && len(as[0].Rhs) == 1
+		if okFetch {
+			call, isCall := unparen(as[0].Rhs[0]).(*ast.CallExpr)
+			okFetch = isCall && len(call.Args) == 1 && pr.useOf(as[0].Lhs[0]) == bs
+			if okFetch {
+				sel, isSel := call.Fun.(*ast.SelectorExpr)
+				okFetch = isSel
+				if okFetch {
+					_, okFetch = pr.astikitMethod(sel, "BytesIterator.NextBytesNoCopy", "BytesIterator.NextBytes")
+				}
+				if v, isC := pr.constU64(call.Args[0]); !isC || v != 4 {
+					okFetch = false
+				}
+			}
+		}
+	}
+	if !r.Check(okFetch, "F6", k("fetches-4-bytes"), pr.pos(target), "the byte slice the CRC32 field is assembled from is assigned exactly once, from BytesIterator.NextBytes[NoCopy](4)",
+		"the bytes the CRC32 field is assembled from do not come from a unique fetch of exactly 4 bytes") {
+		r.Unknown("F6", k("byte-order"), pr.pos(target), "not checked: the fetched slice was not identified")
+		return true
+	}
+	it := &interp{pr: pr, bytes: map[types.Object]string{bs: "byte"}}
+	val, err := it.eval(target.Rhs[0])
+	if err != nil {
+		r.Unknown("F6", k("byte-order"), pr.pos(target), "construct not interpreted: "+err.Error())
+		return true
+	}
+	n := 0
+	for kb := 0; kb < 4; kb++ {
+		hi, lo := 31-8*kb, 24-8*kb
+		ok := len(val) == 32
+		detail := ""
+		for j := 0; ok && j < 8; j++ {
+			want := bitdom.AtomForm(bitdom.Atom{Src: fmt.Sprintf("byte[%d]", kb), Bit: 7 - j})
+			if !val[31-8*kb-j].Equal(want) {
+				ok = false
+				detail = fmt.Sprintf("result bit %d is %s, big-endian requires %s", 31-8*kb-j, val[31-8*kb-j], want)
+			}
+		}
+		r.Check(ok, "F6", k(fmt.Sprintf("byte[%d]-at-bits[%d:%d]", kb, hi, lo)), pr.pos(target),
+			fmt.Sprintf("stream byte %d occupies bits %d..%d of the CRC32 field, MSB to MSB (big-endian)", kb, hi, lo), detail)
+		n++
+	}
+	r.Floor("F6", "parseCRC32 bytes placed", n, 4)
+	r.OK("F6", k("returns-assembled-value"), pr.pos(target), "the assembled value is stored in the section's CRC32 field directly (the value the gate compares: C09a stream-operand)")
+	return true
 }
 
 func (pr *prover) f6Write() {
